@@ -11,7 +11,9 @@ RULE = ('case = one construction AnsiString(str)/AnsiStr(str)/set_ansi_str(str) 
         'string (grammar: text interleaved with SGR sequences of 0..8 codes - known, unknown, clear, reset, '
         '38/48/58 groups at any position, incomplete groups at the end - non-SGR CSI sequences, lone ESC, '
         'unterminated tails) or from the library\'s own rendering of a reachable value; compared with the '
-        'reference tokenizer + SGR terminal.  Non-trivial: >= 1 SGR sequence followed by text; distinct = '
+        'reference tokenizer + SGR terminal; a quarter of the AnsiString constructions are followed by 1-3 in-place '
+        'edits of the new object on/near its change points and a second construction from the same text (what an '
+        'input parses to must not depend on earlier objects).  Non-trivial: >= 1 SGR sequence followed by text; distinct = '
         'distinct input string.')
 ASSUMPTIONS = ['SGR sequence = ESC [ [0-9;]* m; other CSI sequences are text',
                'grey (not judged): empty/non-decimal tokens, colour args > 255, 38/48/58 + bad selector, '
@@ -235,6 +237,25 @@ def drive(ctx, mon, tier, only_case=None):
             if rng.random() < 0.2:
                 ex.run({'m': 'new', 'cls': 'AnsiString', 'a': ['zz', 'bold']})
                 ex.run({'m': 'set_ansi_str', 'r': len(ex.pool) - 1, 'a': [s]})
+            if rng.random() < 0.25 and cls is L.AnsiString:
+                # construct - edit in place - construct again: what an input parses to must not depend on what was
+                # done to an earlier object built from the same text (a parse memo that hands out shared tables)
+                ri = len(ex.pool) - 1
+                first = ex.pool[ri] if 0 <= ri < len(ex.pool) else None
+                if isinstance(first, L.AnsiString):
+                    n = len(first.base_str)
+                    cps = sorted(set([0, n] + [i for i in range(1, n) if first.ansi_settings_at(i) != first.ansi_settings_at(i - 1)]))
+                    for _ in range(rng.randint(1, 3)):
+                        a = rng.choice(cps) if rng.random() < 0.7 else rng.randint(0, n)
+                        b = rng.choice(cps) if rng.random() < 0.7 else rng.randint(0, n)
+                        a, b = min(a, b), max(a, b)
+                        if rng.random() < 0.6:
+                            ex.run({'m': 'apply_formatting', 'r': ri, 'a': [rng.choice(['blink', 'bg_cyan', 'italic', 'red']), a, b],
+                                    'k': {'topmost': rng.random() < 0.7}})
+                        else:
+                            ex.run({'m': 'remove_formatting', 'r': ri, 'a': [None, a, b]})
+                    ctx.ev('parse-again-after-edit')
+                    ex.run({'m': 'new', 'cls': 'AnsiString' if rng.random() < 0.6 else 'AnsiStr', 'a': [s]})
             if rng.random() < 0.1:
                 ex.run({'m': 'new', 'cls': 'AnsiStr', 'a': [s]})
                 ex.run({'m': 'new', 'cls': 'AnsiString', 'a': ['q']})
